@@ -52,7 +52,9 @@ Step(e) ==
                                      /\ (HasTok(e.tokens, {"MMM", "MMMM", "ddd", "dddd", "g", "gg"}) => e.text_ok)))
      THEN Check(e.reformat = e.text, "reformatting_a_parsed_text_reproduces_it")
      ELSE TRUE
+\* the same (pattern, culture, value) formatted in another interpreter after a different history
+StepDet(e) == Check(e.elsewhere = e.text, "formatting_is_a_function_of_pattern_culture_value_only")
 Init == l = 1
-Next == l <= Len(Events) /\ l' = l + 1 /\ Step(Events[l])
+Next == l <= Len(Events) /\ l' = l + 1 /\ (IF Events[l].op = "det" THEN StepDet(Events[l]) ELSE Step(Events[l]))
 Spec == Init /\ [][Next]_l
 =============================================================================
